@@ -72,6 +72,8 @@ def run_case(scn):
     xs, zs, problems = record.trial_sequence(t)
     for p in problems[:3]:
         viol.append({"mech": "trial-authentication", "msg": p})
+    viol += record.first_trial_problems(t, scn)
+    obs["first_trials_checked_against_the_configured_grid"] = 1
     a = agp_model.audit(xs, zs, scn["N"], scn["r"])
     for v in a["violations"]:
         v = dict(v)
